@@ -97,6 +97,11 @@ func c11Recipe(cs *c11Case, p, s int) *rec.Rec {
 		big = r.Chance(1, 40)
 	}
 	m := gen.ControllerMessage(r, kind, gen.MsgOpt{Big: big})
+	if cs.Profile != "small" && r.Chance(1, 25) {
+		// the largest frames the 16-bit length can describe: a packet-out of exactly 65535, 65534 or 65528 bytes
+		n := r.Pick(65535, 65535, 65534, 65528) - 24
+		m = rec.New("packet_out").Set("buffer_id", 0xffffffff).Set("in_port", r.Bits(32)).SetB("data", r.Bytes(n))
+	}
 	xid := uint64(p)<<20 | uint64(s)
 	m.Set("xid", xid)
 	if in := m.Sub("message"); in != nil { // a bundled message carries its own header
